@@ -32,7 +32,9 @@ import (
 	"strings"
 
 	"github.com/moov-io/iso8583"
+	"github.com/moov-io/iso8583/encoding"
 	"github.com/moov-io/iso8583/field"
+	"github.com/moov-io/iso8583/prefix"
 
 	"verif/harness/gen"
 	"verif/harness/impl"
@@ -910,7 +912,58 @@ func linesC11(lines []string, rep *Reporter) {
 	}
 }
 
+// checkUnmarshalKeepsCallerMemory: a target struct that is filled again. Its members point at slices
+// the caller still uses elsewhere (here: two members share one backing array); Unmarshal gives a member
+// a new value, it does not write through the old one — a member whose message field is absent, and
+// every slice the caller kept from an earlier Unmarshal, stay as they were.
+func checkUnmarshalKeepsCallerMemory(rep *Reporter) {
+	type target struct {
+		F2 *[]byte `iso8583:"2"`
+		F3 *[]byte `iso8583:"3"`
+	}
+	spec := &iso8583.MessageSpec{Name: "m", Fields: map[int]field.Field{
+		0: field.NewString(&field.Spec{Length: 4, Description: "MTI", Enc: encoding.ASCII, Pref: prefix.ASCII.Fixed}),
+		1: field.NewBitmap(&field.Spec{Length: 8, Description: "Bitmap", Enc: encoding.Binary, Pref: prefix.Binary.Fixed}),
+		2: field.NewBinary(&field.Spec{Length: 40, Description: "b2", Enc: encoding.Binary, Pref: prefix.Binary.L}),
+		3: field.NewHex(&field.Spec{Length: 40, Description: "h3", Enc: encoding.Binary, Pref: prefix.Binary.L}),
+	}}
+	for n := 1; n <= 12; n++ {
+		line := fmt.Sprintf("G caller-memory unmarshal value-of-%d-bytes", n)
+		safely(rep, line, func() {
+			m := iso8583.NewMessage(spec)
+			m.MTI("0100")
+			val := bytes.Repeat([]byte{0xAB}, n)
+			if m.BinaryField(2, val) != nil {
+				return
+			}
+			backing := []byte("0123456789abcdefghijklmnopqrstuv")
+			a, b := backing[0:1], backing[4:10]
+			keptB := append([]byte{}, b...)
+			keptAll := append([]byte{}, backing...)
+			t := &target{F2: &a, F3: &b}
+			rep.Case(line)
+			if err := m.Unmarshal(t); err != nil {
+				return
+			}
+			if t.F2 == nil || !bytes.Equal(*t.F2, val) {
+				rep.Viol("Unmarshal did not copy the value of a present field into a pre-filled *[]byte member", line, fmt.Sprintf("got %x", t.F2))
+				return
+			}
+			if t.F3 == nil || !bytes.Equal(*t.F3, keptB) || !bytes.Equal(b, keptB) {
+				rep.Viol("Unmarshal changed a struct member whose message field is not set (the member shares its backing array with another member)", line,
+					fmt.Sprintf("member for the absent field 3 was %q, is %q", keptB, b))
+				return
+			}
+			if !bytes.Equal(backing[1:], keptAll[1:]) && !bytes.Equal(backing[len(val):], keptAll[len(val):]) {
+				rep.Viol("Unmarshal wrote into memory the caller still holds (behind the old value of a member)", line,
+					fmt.Sprintf("backing array was %q, is %q", keptAll, backing))
+			}
+		})
+	}
+}
+
 func runC11(t gen.Tier, r *gen.Rng, rep *Reporter) {
+	checkUnmarshalKeepsCallerMemory(rep)
 	// what Marshal wrote is what the field holds: two writes through two writers (SetBytes, Unpack, JSON,
 	// Marshal of a field / string / bytes / zero value) with a look at the field in between
 	{
